@@ -2,9 +2,11 @@
 direction cases), pipe/split pairing, label pairing, delegation of lq. Residuals, isometry and
 triangularity are numerical and not decided."""
 import ast
+import re
 
+from ..pattern import find, guards_of, pmatch
 from ..charge import check_factorization_charges
-from ..core import (AnalysisError, body_nodes, call_name, dotted, key_text, kwarg, names_in,
+from ..core import (AnalysisError, local_defs, body_nodes, call_name, dotted, key_text, kwarg, names_in,
                     params, parent, stmts_of, unparse)
 
 NPC = 'tenpy/linalg/np_conserved.py'
@@ -40,6 +42,24 @@ def check_pipes(prog, rep):
                           '%s blocks its input through hidden pipes (as_completely_blocked) but '
                           'never splits them again: factors of a non-blocked input come back with '
                           'pipe legs' % q, blk[0].lineno)
+        # each hidden pipe is undone independently of the others: the condition of a split is
+        # the membership test of ITS axis alone (an `elif` would make it depend on the other one)
+        for c, guard in splits:
+            if guard is None:
+                continue
+            st_ = c
+            while not isinstance(st_, ast.stmt):
+                st_ = parent(st_)
+            gs = {(t, pol) for t, pol, _ in guards_of(f, st_) if pa in t}
+            extra = {(t, pol) for t, pol in gs if re.fullmatch(r'-?\d+ in ' + re.escape(pa), t) and
+                     (t != unparse(guard) or not pol)}
+            if extra:
+                rep.violation('FACT-pipes', m, q, 'split-depends-on-other-axis:' + unparse(c)[:30],
+                              '`%s` additionally depends on %s: when both legs were piped only one '
+                              'of them is split again and the other factor keeps the hidden pipe '
+                              '(its indices stay in charge-sorted order)' %
+                              (unparse(c), sorted('%s%s' % ('' if pol else 'not ', t)
+                                                  for t, pol in extra)), c.lineno)
         for c, guard in splits:
             if guard is None:
                 rep.violation('FACT-pipes', m, q, 'unguarded-split:' + unparse(c)[:30],
@@ -233,6 +253,46 @@ def check_dtypes(prog, rep):
                           g.lineno)
 
 
+def check_inner_width(prog, rep):
+    """qr(mode='reduced'): the inner leg keeps, per charge block, as many indices as the stored
+    Q block has columns (= rows of the R block). With a cutoff the block factorisation may drop
+    dependent columns, so the width must be read off the produced block, not the input block."""
+    m = prog.module(NPC)
+    f = m.func('qr')
+    n = 0
+    for st in ast.walk(f):
+        e = pmatch('$mask[$$a:$$a + $$w] = True', st) if isinstance(st, ast.Assign) else None
+        if not e:
+            continue
+        n += 1
+        w = e['$$w']
+        defs = local_defs(f)
+        srcs = set(names_in(w))
+        todo = list(srcs)
+        while todo:
+            x = todo.pop()
+            for v in defs.get(x, []):
+                for y in names_in(v):
+                    if y not in srcs:
+                        srcs.add(y)
+                        todo.append(y)
+        produced = {t.id for s2 in ast.walk(f) if isinstance(s2, ast.Assign) and
+                    isinstance(s2.value, ast.Call) and call_name(s2.value) in ('qr', 'qr_li', 'rq')
+                    for tt in s2.targets for t in ast.walk(tt) if isinstance(t, ast.Name)}
+        direct = set(names_in(w))
+        rep.instance('FACT-inner-width', {'store': key_text(st), 'width': unparse(w),
+                                          'block_factors': sorted(produced)})
+        if not (direct & produced):
+            rep.violation('FACT-inner-width', m, 'qr', 'width-from-input',
+                          '`%s`: the number of kept inner indices must be the number of columns of '
+                          'the produced Q block (%s); `%s` is computed from something else, which '
+                          'differs as soon as the block factorisation drops columns (cutoff on a '
+                          'rank-deficient block)' % (key_text(st), sorted(produced), unparse(w)),
+                          st.lineno)
+    if n < 1:
+        raise AnalysisError('qr: inner-leg mask store not found')
+
+
 def run(prog, rep, tier):
     rep.rule('CHARGE-factor', 'symbolic evaluation of the leg charges built by _svd_worker, qr, '
              'orthogonal_columns in every direction case: eff(l1)+eff(l2)-qtotal == 0 for each '
@@ -245,6 +305,7 @@ def run(prog, rep, tier):
     check_labels(prog, rep)
     check_arg_aliasing(prog, rep)
     check_dtypes(prog, rep)
+    check_inner_width(prog, rep)
     rep.floor('CHARGE-factor', 40)
     rep.floor('FACT-pipes', 6)
     rep.floor('FACT-labels', 6)
